@@ -46,6 +46,8 @@ def serve(ctx):
     verdict = o["output"].split("OBS-VERDICT", 1)[1].split("OBS-COUNTS")[0]
     found = [(m.group(1), int(m.group(2))) for m in re.finditer(r'<<"(\w+)", (\d+)>>', verdict)]
     lines = common.read_ndjson(res)
+    st["routes_extracted"] = len(table)
+    st["write_routes"] = sum(1 for r in table if r["write"])
     return g, model_violation, st, found, lines
 
 
@@ -92,7 +94,7 @@ def run(ctx):
         "states": g.get("distinct", 0), "transitions": g.get("generated", 0), "traces_validated_against_impl": st["requests"] * 2,
         "evaluations": st["requests"], "distinct_nontrivial": st["requests"],
         "rule": "requests = every route pattern of both API versions extracted with chi.Walk from the running router (plus an unregistered one) x %d methods x %d variants (method-override headers/query, dry-run flags, trailing/double slash), each with a valid write body for its route; all distinct; each served by the real router in read-only and read-write mode" % (len(METHODS), len(VARIANTS)),
-        "routes_extracted": len(table), "write_routes": sum(1 for r in table if r["write"]),
+        "routes_extracted": st["routes_extracted"], "write_routes": st["write_routes"],
         "writes_reached_without_read_only": st["writes_reached_without_read_only"], "rejected_in_read_only": st["rejected_in_read_only"],
         "spec_drift": drift, "samples": st["samples"][:2], "exhaustive": True,
     })
